@@ -119,6 +119,26 @@ func (w *World) verifyFunc(key string) (fc *FuncCtx) {
 		st.vars[rv] = fc.reg().Zero(rv.Type())
 	}
 	st.ghost["jslast"] = fc.fresh("jslast", types.Typ[types.String])
+	for _, want := range strings.Fields(fc.contract.Opts["countsends"]) {
+		st.ghost["sends_"+want] = fc.fresh("sends_"+want, tInt)
+		ast.Inspect(decl, func(n ast.Node) bool {
+			if ss, ok := n.(*ast.SendStmt); ok {
+				if ce, ok := unparen(ss.Chan).(*ast.CallExpr); ok {
+					if se, ok := unparen(ce.Fun).(*ast.SelectorExpr); ok && se.Sel.Name == want {
+						if _, have := st.ghost["lastsent_"+want]; !have {
+							if ct, ok := fc.typeOf(ss.Chan).Underlying().(*types.Chan); ok {
+								st.ghost["lastsent_"+want] = fc.fresh("lastsent_"+want, ct.Elem())
+							}
+						}
+					}
+				}
+			}
+			return true
+		})
+	}
+	for _, want := range strings.Fields(fc.contract.Opts["countcalls"]) {
+		st.ghost["calls_"+want] = fc.fresh("calls_"+want, tInt)
+	}
 	// event counters: one ghost counter per package-level channel the function sends on
 	ast.Inspect(decl, func(n ast.Node) bool {
 		if ss, ok := n.(*ast.SendStmt); ok {
